@@ -19,8 +19,12 @@ def _al(*a):
     raise TO()
 
 
-def run(kind, text):
+def run(kind, text, pre=None):
     b = io.StringIO()
+    ns = {"__name__": "__main__"}
+    if pre:
+        # observation helpers of the harness (never converted): the same text is executed into both namespaces
+        exec(compile(pre, "<pre>", "exec"), ns)
     try:
         co = compile(text, "<" + kind + ">", "exec" if kind == "source" else "eval")
     except (SyntaxError, ValueError) as e:
@@ -31,9 +35,9 @@ def run(kind, text):
     try:
         with contextlib.redirect_stdout(b):
             if kind == "source":
-                exec(co, {"__name__": "__main__"})
+                exec(co, ns)
             else:
-                eval(co, {"__name__": "__main__"})
+                eval(co, ns)
     except TO:
         return "timeout", "", b.getvalue()
     except BaseException as e:
@@ -50,12 +54,12 @@ def main():
     cache = {}
     for r in records:
         if r["src"] not in cache:
-            cache[r["src"]] = run("source", r["src"])
+            cache[r["src"]] = run("source", r["src"], r.get("pre"))
         s1, m1, o1 = cache[r["src"]]
         if s1 != "ok":
             results.append({"id": r["id"], "orig": s1, "omsg": m1})
             continue
-        s2, m2, o2 = run("oneliner", r["out"])
+        s2, m2, o2 = run("oneliner", r["out"], r.get("pre"))
         results.append({"id": r["id"], "orig": "ok", "out": s2, "msg": m2, "same": s2 == "ok" and o1 == o2,
                         "expected": o1[-200:] if o1 != o2 else "", "observed": o2[-200:] if o1 != o2 else ""})
     json.dump({"python": "%d.%d" % sys.version_info[:2], "results": results}, open(sys.argv[2], "w"))
